@@ -1,0 +1,78 @@
+//go:build verif
+
+/*
+Verification hook (build tag `verif`): the reconciler with the work queue and the
+rate limiter that SetupWithManager configures, without a manager. Events delivered
+through Dispatch and leader changes reach that queue through the controller's own
+enqueue sites. Not compiled in regular builds.
+*/
+
+package reconciler
+
+import (
+	"context"
+	"time"
+
+	k8sworkqueue "k8s.io/client-go/util/workqueue"
+
+	"github.com/jcmoraisjr/haproxy-ingress/pkg/controller/config"
+	"github.com/jcmoraisjr/haproxy-ingress/pkg/controller/services"
+	"github.com/jcmoraisjr/haproxy-ingress/pkg/utils/workqueue"
+)
+
+// VerifQueueReconciler ...
+type VerifQueueReconciler struct {
+	*VerifReconciler
+	queue k8sworkqueue.TypedRateLimitingInterface[rparam]
+}
+
+type verifObservedLimiter struct {
+	k8sworkqueue.TypedRateLimiter[rparam]
+	observe func(fullsync bool, before, after time.Time, delay time.Duration)
+}
+
+func (l *verifObservedLimiter) When(item rparam) time.Duration {
+	before := time.Now()
+	d := l.TypedRateLimiter.When(item)
+	l.observe(item.fullsync, before, time.Now(), d)
+	return d
+}
+
+// VerifNewQueueReconciler builds the queue the way SetupWithManager does. observe is
+// called for every delay the rate limiter hands out.
+func VerifNewQueueReconciler(ctx context.Context, cfg *config.Config, svc *services.Services,
+	observe func(fullsync bool, before, after time.Time, delay time.Duration)) *VerifQueueReconciler {
+	v := VerifNewReconciler(ctx, cfg, svc)
+	limiter := &verifObservedLimiter{
+		TypedRateLimiter: workqueue.IngressReconcilerRateLimiter[rparam](cfg.RateLimitUpdate, cfg.WaitBeforeUpdate),
+		observe:          observe,
+	}
+	queue := k8sworkqueue.NewTypedRateLimitingQueueWithConfig(limiter, k8sworkqueue.TypedRateLimitingQueueConfig[rparam]{
+		Name: "ingress",
+	})
+	v.r.queue = queue
+	v.VerifWatchers.rq = queue
+	return &VerifQueueReconciler{VerifReconciler: v, queue: queue}
+}
+
+// LeaderChanged calls the reconciler's leader subscriber.
+func (v *VerifQueueReconciler) LeaderChanged(isLeader bool) {
+	v.r.leaderChanged(context.Background(), isLeader)
+}
+
+// Next blocks until the queue hands out a request, the way the controller's worker
+// takes it, and marks it as successfully processed.
+func (v *VerifQueueReconciler) Next() (fullsync, shutdown bool) {
+	item, shutdown := v.queue.Get()
+	if shutdown {
+		return false, true
+	}
+	v.queue.Forget(item)
+	v.queue.Done(item)
+	return item.fullsync, false
+}
+
+// ShutDown ...
+func (v *VerifQueueReconciler) ShutDown() {
+	v.queue.ShutDown()
+}
